@@ -314,6 +314,20 @@ fn one_input(rep: &mut Report, prop: &str, focus: Focus, input: &[u8], limits: L
             }
         }
     }
+    // --- round trip under incremental draining (C01's last sentence): 2-way segmentations x
+    //     {borrow, copy} x a reduced set of drain pairs that covers every drain API once
+    if focus == Focus::RoundTrip {
+        for i in 0..=n {
+            for m in [M::Borrow, M::Copy] {
+                for d1 in [D::Read2, D::ReadAll, D::Advance1, D::Consume1] {
+                    for d2 in [D::None, D::Read2, D::ConsumePlus1, D::AdvanceAll] {
+                        let pieces = pieces3(n, i, n, [m; 3], [d1, d2, D::None]);
+                        t.enc(input, &pieces, limits, false, &mut obs);
+                    }
+                }
+            }
+        }
+    }
     // --- encoder: 2-way segmentations x uniform methods x all drain pairs
     if drains_full {
         // pipelined anchored reads: 3 pieces, each read before the previous one's drain
